@@ -15,7 +15,7 @@ Viols(r) ==
          \cup (IF r.ok /\ ~r.rt_eq THEN {<<"C20", "parsing a tag's own protocol name does not give back an equal tag", "">>} ELSE {})
     [] r.e = "tag_pair" ->
          LET same == r.a = r.b IN
-         (IF r.eq # same THEN {<<"C20", "tag equality is not equality of protocol names", "">>} ELSE {})
+         (IF r.eq # same \/ r.str_eq # same THEN {<<"C20", "tag equality (with a tag or with a string) is not equality of protocol names", "">>} ELSE {})
          \cup (IF r.cmp # LexCmp(r.a, r.b) \/ ~r.pcmp_same THEN {<<"C20", "tag order is not the order of protocol names", "">>} ELSE {})
          \cup (IF same /\ ~r.hash_eq THEN {<<"C20", "equal tags hash differently", "">>} ELSE {})
          \cup (IF r.map_hit # same \/ r.btree_hit # same \/ r.set_len # (IF same THEN 1 ELSE 2)
